@@ -163,11 +163,12 @@ CHECKS = [
      "design_ref": "4/C02", "note": SIM_NOTE,
      "technique": "fault-sequence enumeration + Hypothesis-generated call histories against the simulator's ground-truth air log"},
     {"property_id": "C12", "level": "exploration",
-     "text": "model-based: every op word to the stated depth over a 9-symbol alphabet (exhaustive) plus Hypothesis op lists "
-             "to length 40 run in lock-step against an independent reference queue; absence beyond the explored histories "
+     "text": "model-based: every op word to the stated depth over a 9-symbol alphabet (exhaustive), Hypothesis op lists to length "
+             "40, and histories produced by a Hypothesis rule-based state machine whose rules step the reference queue (state-aware "
+             "preconditions), all run in lock-step against an independent reference queue; absence beyond the explored histories "
              "is not shown",
      "design_ref": "4/C12", "note": "reference queue vlib/ref/queue.py is the specification; int message types only",
-     "technique": "property-based testing: exhaustive op-word enumeration + Hypothesis op lists vs reference model"},
+     "technique": "model-based property testing: exhaustive op-word enumeration + Hypothesis op lists + rule-based state machine vs reference model"},
 ]
 
 ALL = ["C%02d" % i for i in range(1, 21)]
